@@ -16,7 +16,7 @@ open PV
 /-! ### the three record rewrites of `aggregate` -/
 
 def aggFn (f : AggFlags) (fn : Function) : Function :=
-  let fn := if !f.function then { fn with name := [], systemName := [] } else fn
+  let fn := if !f.function then { fn with name := [], systemName := [], startLine := 0 } else fn
   if !f.filename then { fn with filename := [] } else fn
 
 def aggLines (f : AggFlags) (lines : List Line) : List Line :=
@@ -163,7 +163,7 @@ def nodeInfoAgg (clean : Str → Str) (p : Profile) (o : GOpts) (f : AggFlags) (
       let orig := if o.origFnNames then sys else []
       let withObj := o.objNames || (name = [] && orig = [])
       some { name := name, origName := orig, address := address, file := file,
-             startLine := if withObj then fn.startLine else 0,
+             startLine := if withObj && f.function then fn.startLine else 0,
              lineno := if f.linenumber then line.line else 0,
              columnno := if f.linenumber && f.columnnumber then line.column else 0,
              objfile := if withObj then objfile else [] }
@@ -222,7 +222,7 @@ theorem nodeInfo_aggregate (clean : Str → Str) (p : Profile) (o : GOpts) (f : 
     | some fn =>
       simp only [Option.map_some]
       unfold aggFn aggLine
-      cases f.function <;> cases f.filename <;> rfl
+      cases f.function <;> cases f.filename <;> cases o.objNames <;> cases o.origFnNames <;> first | rfl | simp
 
 theorem locNodes_aggregate (clean : Str → Str) (p : Profile) (o : GOpts) (f : AggFlags) (l : Location) :
     locNodes clean (aggregate p f) o (aggLoc f l) = locNodesAgg clean p o f l := by
